@@ -22,13 +22,13 @@ Definition ord_gt (o : option comparison) : bool := match o with Some Gt => true
 Definition ord_ge (o : option comparison) : bool := match o with Some Gt | Some Eq => true | _ => false end.
 
 Definition upartial_cmp (a b : list Z) : outcome (option comparison) := do c <- ucmp a b; Ret (Some c).
-Definition ipartial_cmp (x y : bigint) : outcome (option comparison) := do c <- icmp x y; Ret (Some c).
+Definition ipartial_cmp (sp : sign_params) (x y : bigint) : outcome (option comparison) := do c <- icmp sp x y; Ret (Some c).
 
 (** (partial_cmp, lt, le, gt, ge) of one pair — what the ops `ord.u` / `ord.i` observe *)
 Record ord_obs := mkOrd { oo_pcmp : option comparison; oo_lt : bool; oo_le : bool; oo_gt : bool; oo_ge : bool }.
 Definition ord_of (o : option comparison) : ord_obs := mkOrd o (ord_lt o) (ord_le o) (ord_gt o) (ord_ge o).
 Definition uord (a b : list Z) : outcome ord_obs := do o <- upartial_cmp a b; Ret (ord_of o).
-Definition iord (x y : bigint) : outcome ord_obs := do o <- ipartial_cmp x y; Ret (ord_of o).
+Definition iord (sp : sign_params) (x y : bigint) : outcome ord_obs := do o <- ipartial_cmp sp x y; Ret (ord_of o).
 
 (** BigInt's inherent checked_add / checked_sub (the trait forms CheckedAdd / CheckedSub are rows of
     the C10 table; `x.checked_add(&y)` on a BigInt resolves to these inherent methods) *)
